@@ -102,8 +102,9 @@ def spec_merge(default, user, new_ok=()):
 # valid values / user subsets
 # ----------------------------------------------------------------------------------------------
 def rand_float(rng):
-    return rng.choice([0.0, 0.5, 1.0, 28.0, 0.0065, 1e-7, 2.5e10, 0.125, -40.0, 3.0,
-                       rng.randint(0, 64) / 8, round(rng.uniform(-5, 5), 3)])
+    v = rng.choice([0.0, 0.5, 1.0, 28.0, 0.0065, 1e-7, 2.5e10, 0.125, -40.0, 3.0,
+                    rng.randint(0, 64) / 8, round(rng.uniform(-5, 5), 3)])
+    return 0.0 if v == 0 else v   # no negative zero: the model's exact decimals have one zero
 
 
 def rand_int(rng):
